@@ -352,22 +352,24 @@ def r10_single_fetch(ctx):
         if len(ps) != 1:
             raise AnalysisError(f"{fi.name} on the model state has {len(ps)} returning paths")
         return ps[0], {k: v for k, v in ps[0].heap.items() if k.startswith("state.")}
-    fetched = []
-    p, heap = step(ff, env, {})
-    fetched += [tuple(vkey(x) for x in e.data["args"][:2]) for e in p.effects if is_call(e, qual="cascade.executor.bridge.Bridge.fetch")]
-    ev = _event(7, Atom("H2", cls="builtins.str"), D)
-    p, heap = step(fn, heap, {"events": [ev]}, models={f"{NOTIFY}.consider_computable": lambda run, a, k, n, f: a[0]})
-    requeued = vkey(heap.get("state.fetching_queue"))
-    p, heap = step(ff, heap, {})
-    fetched += [tuple(vkey(x) for x in e.data["args"][:2]) for e in p.effects if is_call(e, qual="cascade.executor.bridge.Bridge.fetch")]
-    ctx.evals(3)
-    if len(fetched) != 1:
-        ctx.violation("C04.R10", fn.qual, loc(fn), "a requested output is fetched once",
-                      f"D requested, published on H1, copy for its consumer on its way to H2: flush commands the fetch from H1; the transfer confirmation from H2 arrives "
-                      f"before the value (fetch queue afterwards: {requeued}); the next flush commands {fetched[1:] or 'nothing'} — fetch commands in total {fetched}. The "
-                      f"purge guard waits for one value only: the extra fetch is still unanswered when D is dropped on its source host")
-    else:
-        ctx.ok("C04.R10", loc(fn), f"publish -> fetch from H1 -> transfer confirmation from H2 -> flush: one fetch in total {fetched}")
+    # transfer commands are numbered from 0 (Bridge.transmit_idx_counter): the confirmation of the very first command carries index 0
+    for tix in (0, 7):
+        fetched = []
+        p, heap = step(ff, env, {})
+        fetched += [tuple(vkey(x) for x in e.data["args"][:2]) for e in p.effects if is_call(e, qual="cascade.executor.bridge.Bridge.fetch")]
+        ev = _event(tix, Atom("H2", cls="builtins.str"), D)
+        p, heap = step(fn, heap, {"events": [ev]}, models={f"{NOTIFY}.consider_computable": lambda run, a, k, n, f: a[0]})
+        requeued = vkey(heap.get("state.fetching_queue"))
+        p, heap = step(ff, heap, {})
+        fetched += [tuple(vkey(x) for x in e.data["args"][:2]) for e in p.effects if is_call(e, qual="cascade.executor.bridge.Bridge.fetch")]
+        ctx.evals(3)
+        if len(fetched) != 1:
+            ctx.violation("C04.R10", fn.qual, loc(fn), "a requested output is fetched once",
+                          f"D requested, published on H1, copy for its consumer on its way to H2: flush commands the fetch from H1; the confirmation of transfer command #{tix} from H2 "
+                          f"arrives before the value (fetch queue afterwards: {requeued}); the next flush commands {fetched[1:] or 'nothing'} — fetch commands in total {fetched}. The "
+                          f"purge guard waits for one value only: the extra fetch is still unanswered when D is dropped on its source host", row={"transmit_idx": tix})
+        else:
+            ctx.ok("C04.R10", loc(fn), f"publish -> fetch from H1 -> confirmation of transfer #{tix} from H2 -> flush: one fetch in total {fetched}")
 
 
 def r7_available_writers(ctx):
